@@ -141,6 +141,7 @@ class Script:
         self.var = Id(gen_unquoted(r), False)
         self.alias = mk()
         self.db2 = Id(gen_unquoted(r), False)
+        self.tagname = Id(gen_unquoted(r), False)
         self.n = 0
 
     def stmts(self, length: int) -> list:
@@ -215,6 +216,28 @@ class Script:
                      k("when matched"), k("then update set"), t0, x("."), b, x("="), t1, x("."), b,
                      k("when not matched"), k("then insert"), x("("), a, x(","), b, x(")"), k("values"), x("("), t1, x("."), a, x(","), t1, x("."), b, x(")")],
             lambda: [k("merge into"), t0, k("using"), t1, k("on"), t0, x("."), a, x("="), t1, x("."), a, k("when matched"), k("then delete")],
+            # statements sqlglot hands over as raw-text Commands / fakesnow recognises by keyword text (transforms.tag, expr.key_command, …)
+            lambda: [k("alter table"), t0, k("modify column"), b, k("set tag"), self.tagname, x("= 'sales'")],
+            lambda: [k("alter table"), t0, k("alter column"), b, k("set tag"), self.tagname, x("= 'x y'")],
+            lambda: [k("alter table"), t0, k("set tag"), self.tagname, x("= 'bar'")],
+            lambda: [k("create tag"), self.tagname],
+            lambda: [k("create tag if not exists"), self.tagname, k("comment"), x("= 'c'")],
+            lambda: [k("alter table"), t0, k("cluster by"), x("("), a, x(")")],
+            lambda: [k("create transient table"), self.alias, x("("), a, k("int"), x(")")],
+            lambda: [k("create or replace temporary table"), self.alias, x("("), a, k("varchar"), x("(5))")],
+            lambda: [k("alter session set"), k("timezone"), x("= 'UTC'")],
+            lambda: [k("grant select on table"), t0, k("to role"), self.tagname],
+            lambda: [k("show columns in table"), t0],
+            lambda: [k("select top"), x("1"), a, k("from"), t0, k("order by"), a],
+            lambda: [k("select"), a, k("from"), t0, k("order by"), a, k("limit"), x("1"), k("offset"), x("1")],
+            lambda: [k("start transaction")],
+            lambda: [k("begin transaction")],
+            lambda: [k("truncate table if exists"), t1],
+            lambda: [k("comment if exists on table"), t0, k("is"), x("'c2'")],
+            lambda: [k("alter table"), t1, k("alter"), b, k("comment"), x("'col comment'")],
+            lambda: [k("describe table"), k("information_schema"), x("."), k("tables")],
+            lambda: [k("select"), k("try_to_decimal"), x("('1.5', 10, 2)"), k("as"), self.alias, x(","), k("to_decimal"), x("('2.5', 10, 1),"), k("try_parse_json"), x("('{}'),"),
+                     k("to_timestamp_ntz"), x("('2024-01-02 03:04:05'),"), k("sha2_hex"), x("('a'),"), k("sha2"), x("('a', 256)")],
         ]
         self.pool_size = len(pool)
         for _ in range(length):
@@ -225,7 +248,7 @@ class Script:
 
 def gen_twin_case(rnd) -> dict:
     sc = Script(rnd)
-    toks = sc.stmts(rnd.randint(6, 16))
+    toks = sc.stmts(rnd.randint(8, 18))
     ra, rb = random.Random(rnd.getrandbits(64)), random.Random(rnd.getrandbits(64))
     kinds = [" ".join(t[1] for t in st if not isinstance(t, Id) and t[0] in "kK")[:40] for st in toks]
     return {"kind": "twin", "a": [render(ra, st) for st in toks], "b": [render(rb, st) for st in toks], "kinds": kinds}
@@ -375,6 +398,42 @@ def run_ci() -> dict:
         return out
 
 
+def gen_dbpath_case(rnd) -> dict:
+    name = gen_unquoted(rnd)
+    return {"kind": "dbpath", "first": recase(rnd, name), "later": [recase(rnd, name), name.upper(), name.lower()],
+            "schema": [recase(rnd, "s1"), recase(rnd, "s1")]}
+
+
+def run_dbpath(case: dict) -> dict:
+    """persisted instance: the database written under one spelling of the connect argument must be the database found
+    under every other spelling (unquoted identifiers are case-insensitive; conn.database is reported in upper case)"""
+    import tempfile
+    import fakesnow
+    import snowflake.connector
+    out = {"later": []}
+    with tempfile.TemporaryDirectory() as tmp:
+        try:
+            with fakesnow.patch(db_path=tmp):
+                c = snowflake.connector.connect(database=case["first"], schema=case["schema"][0])
+                out["first_ctx"] = [c.database, c.schema]
+                c.cursor().execute("create table t1 (x int)")
+                c.cursor().execute("insert into t1 values (1), (2)")
+                c.close()
+            for sp in case["later"]:
+                with fakesnow.patch(db_path=tmp):
+                    c = snowflake.connector.connect(database=sp, schema=case["schema"][1])
+                    cur = c.cursor()
+                    try:
+                        cur.execute("select x from t1 order by x")
+                        out["later"].append([c.database, c.schema, [r[0] for r in cur.fetchall()]])
+                    except Exception as e:
+                        out["later"].append([c.database, c.schema, "err:" + type(e).__name__])
+                    c.close()
+        except Exception as e:
+            out["error"] = f"{type(e).__name__}: {str(e)[:150]}"
+    return out
+
+
 def run_var() -> dict:
     """the finding C02/quoted-variable-name, minimal"""
     import fakesnow
@@ -407,6 +466,14 @@ def run_var() -> dict:
             out["merge:then delete"] = [r[0] for r in cur.fetchall()]
         except Exception as e:
             out["merge:then delete"] = "err:" + type(e).__name__
+        for tag, sql in (("lower", "alter table mt modify column a set tag cost = 'x'"), ("upper", "ALTER TABLE MT MODIFY COLUMN A SET TAG COST = 'x'"),
+                         ("mixed", "Alter Table mt Modify Column a Set Tag cost = 'x'")):
+            try:
+                cur = conn.cursor()
+                cur.execute(sql)
+                out["settag:" + tag] = cur.fetchall()
+            except Exception as e:
+                out["settag:" + tag] = "err:" + type(e).__name__
     return out
 
 
@@ -421,6 +488,8 @@ def _worker(shard):
             out.append(run_names(case))
         elif case["kind"] == "var":
             out.append(run_var())
+        elif case["kind"] == "dbpath":
+            out.append(run_dbpath(case))
         else:
             out.append(run_ci())
     return out
@@ -507,9 +576,29 @@ def _check_ci(chk, case, real, reply) -> None:
                       broken="C02_lookup_partial (correspondence with duckFind)")
 
 
+def _check_dbpath(chk, case, real, reply) -> None:
+    chk.case(("dbpath", case["first"], tuple(case["later"])), nontrivial=True)
+    want_db = dec_str(dec_list(reply["norm"])[0])
+    if "error" in real:
+        chk.violation(f"persisted instance scenario failed: {real['error']}", case, broken="C02 connect arguments (db_path)")
+        return
+    for sp, got in zip(case["later"], real["later"]):
+        if got[0] != want_db or got[2] != [1, 2]:
+            chk.violation(f"instance persisted with connect(database={case['first']!r}) and reopened with connect(database={sp!r}): conn.database={got[0]!r} "
+                          f"(folded name {want_db!r}), `select x from t1` -> {got[2]} (written rows [1, 2])", case,
+                          broken="C02_reported_upper / C02_same_object (connect argument spelling with db_path)")
+            return
+
+
 def _check_var(chk, case, real, reply) -> None:
     chk.case(("var",), nontrivial=False)
     same_key = reply["set"] == reply["unset"]   # model: key of SET "VAR2" vs key of UNSET var2
+    tag_reply = common.batch(["fold\tsettag\t" + enc_str("modify column a set tag cost = 'x'")])[0]
+    tags = [real.get("settag:" + t) for t in ("lower", "upper", "mixed")]
+    if tag_reply.get("settag") != "1" or tags[0] != tags[1] or tags[0] != tags[2] or str(tags[0]).startswith("err:"):
+        chk.violation(f"`alter table mt modify column a set tag cost = 'x'` in lower / upper / mixed case -> {tags}; model rawHasSetTag(lower-case text) = "
+                      f"{tag_reply.get('settag')}", case, broken="C02_raw_command_invariant (correspondence with rawHasSetTag)")
+        return
     then_reply = common.batch(["fold\tthen\t" + enc_str("delete")])[0]
     if then_reply.get("delete") != "1" or real.get("merge:then delete") != [1]:
         chk.violation(f"`merge … when matched then delete` (lower case): target rows afterwards {real.get('merge:then delete')} (expected [1]); "
@@ -531,9 +620,9 @@ def _check_var(chk, case, real, reply) -> None:
 
 def _cases(chk) -> list[dict]:
     rnd = random.Random(chk.seed)
-    n_twin = 130 if chk.tier == "quick" else 1500
-    n_names = 60 if chk.tier == "quick" else 500
-    cases = [{"kind": "ci"}, {"kind": "var"}]
+    n_twin = 260 if chk.tier == "quick" else 1500
+    n_names = 80 if chk.tier == "quick" else 500
+    cases = [{"kind": "ci"}, {"kind": "var"}] + [gen_dbpath_case(rnd) for _ in range(4 if chk.tier == "quick" else 40)]
     cases += [gen_names_case(rnd) for _ in range(n_names)]
     cases += [gen_twin_case(rnd) for _ in range(n_twin)]
     return cases
@@ -542,6 +631,8 @@ def _cases(chk) -> list[dict]:
 def _model_line(case) -> str:
     if case["kind"] == "names":
         return "fold\tnorm\t" + enc_list([("q" if q else "u") + enc_str(t) for t, q in case["ids"].values()])
+    if case["kind"] == "dbpath":
+        return "fold\tnorm\tu" + enc_str(case["first"])
     if case["kind"] == "var":
         return "fold\tvar\tq" + enc_str("VAR2") + "\tu" + enc_str("var2")
     if case["kind"] == "ci":
@@ -556,6 +647,8 @@ def _judge(chk, case, real, reply) -> None:
         _check_names(chk, case, real, reply)
     elif case["kind"] == "var":
         _check_var(chk, case, real, reply)
+    elif case["kind"] == "dbpath":
+        _check_dbpath(chk, case, real, reply)
     else:
         _check_ci(chk, case, real, reply)
 
